@@ -1,9 +1,8 @@
 import CanvasProofs.Lemmas.C12
 /-!
 C12, PostScript: every `set*` of the PS state cache is simulated by the interpreter from the state the
-cache claims (with an arbitrary current path), `gsave fill grestore` restores it; the colour cache
-needs the excluded class (cached premultiplied bytes = new un-premultiplied bytes with different
-colours) as hypothesis.
+cache claims (with an arbitrary current path), `gsave fill grestore` restores it (since 45be182 the
+colour cache compares like with like and needs no hypothesis).
 -/
 namespace Canvas.C12
 section
@@ -37,10 +36,6 @@ theorem SSim.append {as bs : List (SAct ν)} {w : SW ν} {c c' c'' : List PathRe
   unfold SSim at *
   simp [SAct.seq_append, psRun_append, h1, h2]
 
-/-- the colour cache decides correctly for this paint: it emits, or nothing has to change -/
-def PaintOK (w : SW ν) (p : Paint) : Prop :=
-  p.eq w.paint = true ∨ p.nrgb ≠ w.paint.premul ∨ p.nrgb = w.paint.nrgb
-
 theorem colorOp_col (t : Nat × Nat × Nat) (g : SG ν) :
     (psStep g (colorOp t)).1 = { g with col := t } ∧ (psStep g (colorOp (ν := ν) t)).2 = [] := by
   obtain ⟨a, b, c⟩ := t
@@ -51,20 +46,15 @@ theorem colorOp_col (t : Nat × Nat × Nat) (g : SG ν) :
     simp [psStep]
   · simp [h, psStep]
 
-theorem setPaint_sim (p : Paint) (w : SW ν) (c : List PathRef) (h : PaintOK w p) : SSim N (setPaint p) w c c := by
+theorem setPaint_sim (p : Paint) (w : SW ν) (c : List PathRef) : SSim N (setPaint p) w c c := by
   unfold SSim setPaint
   split
   · simp [psRun]
-  · rename_i hne
-    by_cases hd : (p.nrgb != w.paint.premul) = true
+  · by_cases hd : (p.nrgb != w.paint.nrgb) = true
     · simp only [hd, if_true, psRun, (colorOp_col _ _).1]
       simp [sgC, sgOf]
-    · have he : p.nrgb = w.paint.premul := by simpa using hd
-      rcases h with h | h | h
-      · exact absurd h hne
-      · exact absurd he h
-      · have he' : w.paint.nrgb = w.paint.premul := h ▸ he
-        simp [psRun, sgC, sgOf, h, he']
+    · have he : p.nrgb = w.paint.nrgb := by simpa using hd
+      simp [psRun, sgC, sgOf, he]
 
 theorem psSetLineWidth_sim (x : ν) (hx : N.beq x N.zero = false) (w : SW ν) (c : List PathRef) :
     SSim N (psSetLineWidth N x) w c c := by
@@ -124,131 +114,75 @@ namespace Canvas.C12
 section
 variable {ν : Type} {N : Num ν}
 
-theorem setPaint_paint (p : Paint) (hp : p ≠ .none) (w : SW ν) : (setPaint p w).1.paint = p := by
-  unfold setPaint
-  split
-  · rename_i h; exact (((Paint.eq_iff _ _).1 h).1).symm
-  · rfl
-
-theorem psSetLineWidth_paint (x : ν) (w : SW ν) : (psSetLineWidth N x w).1.paint = w.paint := by
-  unfold psSetLineWidth; split <;> rfl
-theorem psSetLineCap_paint (k : Nat) (w : SW ν) : (psSetLineCap k w).1.paint = w.paint := by
-  unfold psSetLineCap; split <;> rfl
-theorem psSetDashes_paint (o : ν) (a : List ν) (w : SW ν) : (psSetDashes N o a w).1.paint = w.paint := by
-  unfold psSetDashes; split <;> rfl
-theorem psSetLineJoin_paint (jn : Join ν) (w : SW ν) : (psSetLineJoin N jn w).1.paint = w.paint := by
-  unfold psSetLineJoin
-  split
-  · split
-    · rfl
-    · rfl
-    · simp only [psSetMiterLimit]; split <;> rfl
-    · rfl
-  · rfl
-
 /-- stroke tail of `PS.RenderPath`: setPaint, setlinewidth, setlinecap, setlinejoin(+miterlimit), setdash, stroke -/
 def psStrokeTail (N : Num ν) (s : Paint) (x : ν) (k : Nat) (jn : Join ν) (o : ν) (a : List ν) : List (SAct ν) :=
   [setPaint s, psSetLineWidth N x, psSetLineCap k, psSetLineJoin N jn, psSetDashes N o a, ssay [.stroke]]
 
 theorem psStrokeTail_sim (s : Paint) (x : ν) (k : Nat) (jn : Join ν) (o : ν) (a : List ν) (w : SW ν) (c : List PathRef)
-    (hp : PaintOK w s) (hx : N.beq x N.zero = false) (hj : jn.pdfOk = true) :
+    (hx : N.beq x N.zero = false) (hj : jn.pdfOk = true) :
     SSim N (SAct.seq (psStrokeTail N s x k jn o a)) w c [] := by
   unfold psStrokeTail
-  exact SSim.cons (setPaint_sim s w c hp)
+  exact SSim.cons (setPaint_sim s w c)
     (SSim.cons (psSetLineWidth_sim x hx _ c)
       (SSim.cons (psSetLineCap_sim k _ c)
         (SSim.cons (psSetLineJoin_sim jn hj _ c)
           (SSim.cons (psSetDashes_sim o a _ c)
             (SSim.cons (stroke_sim _ c) (SSim.nil _ _))))))
 
-theorem psStrokeTail_paint (s : Paint) (hs : s ≠ .none) (x : ν) (k : Nat) (jn : Join ν) (o : ν) (a : List ν) (w : SW ν) :
-    (SAct.seq (psStrokeTail N s x k jn o a) w).1.paint = s := by
-  simp only [psStrokeTail, SAct.seq, ssay]
-  rw [psSetDashes_paint, psSetLineJoin_paint, psSetLineCap_paint, psSetLineWidth_paint, setPaint_paint s hs]
-
-/-- PaintOK only looks at the cached paint -/
-theorem PaintOK_congr {w w' : SW ν} (h : w'.paint = w.paint) (p : Paint) : PaintOK w p → PaintOK w' p := by
-  unfold PaintOK; rw [h]; exact id
-
-theorem psDraw_inv (L : Lawful N) (d : Draw ν) (w : SW ν)
-    (hf : d.hasFill = true → PaintOK w d.fill)
-    (hs : d.hasStroke N d.join.pdfOk = true → ∀ w' : SW ν, w'.paint = (if d.hasFill then d.fill else w.paint) → PaintOK w' d.stroke) :
-    (psRun (sgOf N w) (psDraw N d w).2).1 = sgOf N (psDraw N d w).1 ∧
-    (psDraw N d w).1.paint = (if d.hasStroke N d.join.pdfOk then d.stroke else if d.hasFill then d.fill else w.paint) := by
+/-- one `PS.RenderPath` call from ANY cache: afterwards the interpreter is in the state the new cache claims -/
+theorem psDraw_inv (L : Lawful N) (d : Draw ν) (w : SW ν) :
+    (psRun (sgOf N w) (psDraw N d w).2).1 = sgOf N (psDraw N d w).1 := by
   have hsg : ∀ w : SW ν, sgOf N w = sgC N w [] := fun w => by simp [sgC, sgOf]
   by_cases hst : d.hasStroke N d.join.pdfOk = true
-  · have hsn : d.stroke ≠ .none := Paint.has_ne' (by simp [Draw.hasStroke] at hst; exact hst.1)
-    have hx : N.beq (d.w' N d.join.pdfOk) N.zero = false :=
+  · have hx : N.beq (d.w' N d.join.pdfOk) N.zero = false :=
       L.pos_ne_zero _ (by simp [Draw.hasStroke] at hst; exact hst.2)
     by_cases hn : d.native d.join.pdfOk = true
     · have hj : d.join.pdfOk = true := by simp [Draw.native] at hn; exact hn.1
       by_cases hfl : d.hasFill = true
-      · have hfn : d.fill ≠ .none := Paint.has_ne' hfl
-        have e : psDraw N d = SAct.seq ([ssay [.path (.orig d.pid)], setPaint d.fill,
+      · have e : psDraw N d = SAct.seq ([ssay [.path (.orig d.pid)], setPaint d.fill,
             ssay [.gsave, (if d.evenOdd then SOp.eofill else SOp.fill), .grestore]] ++
             psStrokeTail N d.stroke (d.w' N d.join.pdfOk) d.cap d.join (d.off' N d.join.pdfOk) (d.dashes' N d.join.pdfOk)) := by
           funext w; simp [psDraw, hst, hn, hfl, psStrokeTail]
         have h1 : SSim N (SAct.seq [ssay [.path (.orig d.pid)], setPaint d.fill,
             ssay [.gsave, (if d.evenOdd then SOp.eofill else SOp.fill), .grestore]]) w [] [.orig d.pid] :=
-          SSim.cons (path_sim _ w []) (SSim.cons (setPaint_sim d.fill _ _ (hf hfl))
+          SSim.cons (path_sim _ w []) (SSim.cons (setPaint_sim d.fill _ _)
             (SSim.cons (gsave_fill_grestore_sim d.evenOdd _ _) (SSim.nil _ _)))
-        have hp1 : (SAct.seq [ssay [.path (.orig d.pid)], setPaint d.fill,
-            ssay [.gsave, (if d.evenOdd then SOp.eofill else SOp.fill), .grestore]] w).1.paint = d.fill := by
-          simp only [SAct.seq, ssay]; exact setPaint_paint d.fill hfn w
         have h2 := psStrokeTail_sim (N := N) d.stroke (d.w' N d.join.pdfOk) d.cap d.join (d.off' N d.join.pdfOk)
-          (d.dashes' N d.join.pdfOk) _ [.orig d.pid] (hs hst _ (by rw [hp1]; simp [hfl])) hx hj
-        have h := SSim.append h1 h2
+          (d.dashes' N d.join.pdfOk) (SAct.seq [ssay [.path (.orig d.pid)], setPaint d.fill,
+            ssay [.gsave, (if d.evenOdd then SOp.eofill else SOp.fill), .grestore]] w).1 [.orig d.pid] hx hj
         rw [e, hsg w, hsg]
-        refine ⟨h, ?_⟩
-        rw [SAct.seq_append, psStrokeTail_paint _ hsn]; simp [hst]
+        exact SSim.append h1 h2
       · have e : psDraw N d = SAct.seq ([ssay [.path (.orig d.pid)]] ++
             psStrokeTail N d.stroke (d.w' N d.join.pdfOk) d.cap d.join (d.off' N d.join.pdfOk) (d.dashes' N d.join.pdfOk)) := by
           funext w; simp [psDraw, hst, hn, hfl, psStrokeTail]
         have h1 : SSim N (SAct.seq [ssay [.path (.orig d.pid)]]) w [] [.orig d.pid] :=
           SSim.cons (path_sim _ w []) (SSim.nil _ _)
         have h2 := psStrokeTail_sim (N := N) d.stroke (d.w' N d.join.pdfOk) d.cap d.join (d.off' N d.join.pdfOk)
-          (d.dashes' N d.join.pdfOk) (SAct.seq [ssay [.path (.orig d.pid)]] w).1 [.orig d.pid]
-          (hs hst _ (by simp [SAct.seq, ssay, hfl])) hx hj
-        have h := SSim.append h1 h2
+          (d.dashes' N d.join.pdfOk) (SAct.seq [ssay [.path (.orig d.pid)]] w).1 [.orig d.pid] hx hj
         rw [e, hsg w, hsg]
-        refine ⟨h, ?_⟩
-        rw [SAct.seq_append, psStrokeTail_paint _ hsn]; simp [hst]
-    · -- explicit outline, filled
-      by_cases hfl : d.hasFill = true
-      · have hfn : d.fill ≠ .none := Paint.has_ne' hfl
-        have e : psDraw N d = SAct.seq [ssay [.path (.orig d.pid)], setPaint d.fill,
+        exact SSim.append h1 h2
+    · by_cases hfl : d.hasFill = true
+      · have e : psDraw N d = SAct.seq [ssay [.path (.orig d.pid)], setPaint d.fill,
             ssay [if d.evenOdd then SOp.eofill else SOp.fill], ssay [.path (.outline d.pid)], setPaint d.stroke, ssay [SOp.fill]] := by
           funext w; simp [psDraw, hst, hn, hfl]
         rw [e, hsg w, hsg]
-        have hp1 : (setPaint d.fill (ssay [SOp.path (.orig d.pid)] w).1).1.paint = d.fill := setPaint_paint d.fill hfn _
-        refine ⟨SSim.cons (path_sim _ w []) (SSim.cons (setPaint_sim d.fill _ _ (hf hfl))
+        exact SSim.cons (path_sim _ w []) (SSim.cons (setPaint_sim d.fill _ _)
           (SSim.cons (fill_sim d.evenOdd _ _) (SSim.cons (path_sim _ _ [])
-            (SSim.cons (setPaint_sim d.stroke _ _ (hs hst _ (by simp only [ssay]; rw [setPaint_paint d.fill hfn]; simp [hfl])))
-              (SSim.cons (fill_sim false _ _) (SSim.nil _ _)))))), ?_⟩
-        simp only [SAct.seq, ssay]
-        rw [setPaint_paint d.stroke hsn]; simp [hst]
+            (SSim.cons (setPaint_sim d.stroke _ _) (SSim.cons (fill_sim false _ _) (SSim.nil _ _))))))
       · have e : psDraw N d = SAct.seq [ssay [.path (.outline d.pid)], setPaint d.stroke, ssay [SOp.fill]] := by
           funext w; simp [psDraw, hst, hn, hfl]
         rw [e, hsg w, hsg]
-        refine ⟨SSim.cons (path_sim _ w [])
-            (SSim.cons (setPaint_sim d.stroke _ _ (hs hst _ (by simp [ssay, hfl])))
-              (SSim.cons (fill_sim false _ _) (SSim.nil _ _))), ?_⟩
-        simp only [SAct.seq, ssay]
-        rw [setPaint_paint d.stroke hsn]; simp [hst]
+        exact SSim.cons (path_sim _ w []) (SSim.cons (setPaint_sim d.stroke _ _) (SSim.cons (fill_sim false _ _) (SSim.nil _ _)))
   · by_cases hfl : d.hasFill = true
-    · have hfn : d.fill ≠ .none := Paint.has_ne' hfl
-      have e : psDraw N d = SAct.seq [ssay [.path (.orig d.pid)], setPaint d.fill,
+    · have e : psDraw N d = SAct.seq [ssay [.path (.orig d.pid)], setPaint d.fill,
           ssay [if d.evenOdd then SOp.eofill else SOp.fill]] := by
         funext w; simp [psDraw, hst, hfl]
       rw [e, hsg w, hsg]
-      refine ⟨SSim.cons (path_sim _ w []) (SSim.cons (setPaint_sim d.fill _ _ (hf hfl))
-        (SSim.cons (fill_sim d.evenOdd _ _) (SSim.nil _ _))), ?_⟩
-      simp only [SAct.seq, ssay]
-      rw [setPaint_paint d.fill hfn]; simp [hst, hfl]
+      exact SSim.cons (path_sim _ w []) (SSim.cons (setPaint_sim d.fill _ _) (SSim.cons (fill_sim d.evenOdd _ _) (SSim.nil _ _)))
     · have e : psDraw N d = SAct.seq [] := by
         funext w; simp [psDraw, hst, hfl]
       rw [e]
-      simp [SAct.seq, psRun, hst, hfl]
+      simp [SAct.seq, psRun]
 
 end
 end Canvas.C12
